@@ -58,17 +58,37 @@ func (c01) Gen(r *Rng, tier string, run int) *Trace {
 		alpha = all
 	}
 	nilRate := []float64{0, 0.1, 0.3}[r.Intn(3)]
+	var used []Val
 	val := func(allowNil bool) Val {
 		if allowNil && r.Bool(nilRate) {
 			return vNil()
 		}
-		switch r.Intn(12) {
+		switch r.Intn(14) {
 		case 0:
 			return vRef(s1, r.Intn(nDress))
 		case 1:
 			return vRef(c2, r.Intn(nDress))
+		case 2:
+			// a duplicate of a value already offered: positions, not values, identify elements
+			if len(used) > 0 {
+				return used[r.Intn(len(used))]
+			}
+		case 3:
+			if r.Bool(0.2) {
+				return vRef(s0, dAlias) // the stack's own handle as an element (only ever observed through Len/Index)
+			}
 		}
-		return g.plain()
+		v := g.plain()
+		used = append(used, v)
+		return v
+	}
+	if r.Bool(0.25) {
+		// long enough for the backing array to have been reallocated a few times
+		op := Op{Obj: s0, M: "Push"}
+		for k := r.Range(5, 14); k > 0; k-- {
+			op.Args = append(op.Args, val(true))
+		}
+		g.emit(op, true)
 	}
 	n := r.Range(1, 25)
 	for i := 0; i < n; i++ {
